@@ -20,7 +20,7 @@ type fieldPool struct {
 }
 
 var defaultFields = &fieldPool{Fields: []string{"a", "b", "c", "d", "e", "ab", "abc", "x1", "Name", "msg", "lat", "k_1", "app",
-	"host", "v", "n.x", "obj.id", "http.code", "_vid", "timestamp", "status", "latency", "city", "col0", "col1"}}
+	"host", "v", "n.x", "obj.id", "http.code", "timestamp", "status", "latency", "city", "col0", "col1"}}
 
 func pick(t *rapid.T, label string, opts ...string) string {
 	return rapid.SampledFrom(opts).Draw(t, label)
@@ -83,8 +83,10 @@ func (g *splGen) searchTerm() string {
 	switch rapid.IntRange(0, 11).Draw(g.t, "termKind") {
 	case 0:
 		return "*"
-	case 1, 2, 3:
-		return g.field() + pick(g.t, "cmp", "=", "!=", "<", ">", "<=", ">=", " = ", "=") + g.searchValue()
+	case 1, 2:
+		return g.field() + pick(g.t, "cmp", "=", "!=", " = ", "=") + g.searchValue()
+	case 3:
+		return g.field() + pick(g.t, "cmpIneq", "<", ">", "<=", ">=") + g.numLit()
 	case 4:
 		return g.word()
 	case 5:
@@ -249,12 +251,15 @@ func (g *splGen) strExpr(depth int) string {
 
 func (g *splGen) boolExpr(depth int) string {
 	if depth <= 0 {
-		return g.field() + pick(g.t, "bcmp", "=", "!=", "<", ">", "<=", ">=", " == ", " = ") + g.searchValueExpr()
+		if chance(g.t, "bIneq", 40) {
+			return g.field() + pick(g.t, "bcmpIneq", "<", ">", "<=", ">=", " > ", " < ") + g.numLit()
+		}
+		return g.field() + pick(g.t, "bcmp", "=", "!=", " == ", " = ") + g.searchValueExpr()
 	}
 	d := depth - 1
 	switch rapid.IntRange(0, 14).Draw(g.t, "boolKind") {
 	case 0:
-		return "NOT " + g.boolExpr(d)
+		return "NOT (" + g.boolExpr(d) + ")"
 	case 1:
 		return g.boolExpr(d) + " AND " + g.boolExpr(d)
 	case 2:
@@ -278,7 +283,7 @@ func (g *splGen) boolExpr(depth int) string {
 	case 11:
 		return pick(g.t, "tf", "true()", "false()")
 	default:
-		return g.field() + pick(g.t, "bcmp2", "=", "!=", "<", ">", "<=", ">=") + g.searchValueExpr()
+		return g.field() + pick(g.t, "bcmp2", "=", "!=") + g.searchValueExpr()
 	}
 }
 
@@ -471,7 +476,7 @@ func (g *splGen) command(kind string) string {
 			if chance(t, "sortCast", 30) {
 				f = pick(t, "cast", "auto", "str", "num", "ip") + "(" + f + ")"
 			}
-			parts[i] = pick(t, "sortSign", "", "+", "-", "- ") + f
+			parts[i] = pick(t, "sortSign", "", "+", "-") + f
 		}
 		return s + strings.Join(parts, ", ")
 	case "head":
@@ -506,7 +511,7 @@ func (g *splGen) command(kind string) string {
 			`startswith=`+g.field()+`=1 endswith="x"`, g.field()+` startswith=("a" OR b=2)`)
 	case "append":
 		return "append " + pick(t, "apOpt", "", "maxout=5 ", "extendtimerange=true ", "maxtime=10 ", "maxout=0 maxtime=1 ") + "[ search " + g.searchClause(1) +
-			pick(t, "apSub", "", " | stats count", " | head 2", " | eval z=1") + " ]"
+			pick(t, "apSub", "", "", "", " | stats count") + " ]"
 	case "eventcount":
 		return "eventcount" + pick(t, "ecForm", "", " index=*", " index=c17idx summarize=false", " summarize=true report_size=true", " list_vix=false index=a index=b")
 	case "inputlookup":
